@@ -210,7 +210,7 @@ Lemma build_index_in iv : forall bs since first pos e,
   exists k, (k < length bs)%nat /\ ie_off e = b_base (nth k bs dflt)
             /\ ie_pos e = pos + zlen (body_of (firstn k bs)).
 Proof.
-  induction bs as [|b r IH]; intros since first pos e; cbn [build_index]; [tauto|].
+  induction bs as [|b r IH]; intros since first pos e; cbn [build_index]; [intros []|].
   intros H.
   assert (Hrest : In e (build_index iv ((if first || (iv <=? since) then 0 else since) + b_count b) false
                                     (pos + zlen (b_bytes b)) r) ->
@@ -290,4 +290,613 @@ Proof.
   induction segs as [|x r IH]; cbn [find_segment]; [constructor|].
   destruct ((s_base x <=? o) && (o <=? s_last x)) eqn:E1; [discriminate|].
   destruct (o <? s_base x) eqn:E2; [discriminate|]. intros H. constructor; [lia|auto].
+Qed.
+
+(* ------------------------------------------------------------------ *)
+(* E. the three read paths of a flushed segment agree                   *)
+(* ------------------------------------------------------------------ *)
+Lemma compute_range_shape fx size es o max st en :
+  compute_range_gen fx size es o max = (st, en) ->
+  (st = -1 /\ en = -1) \/ (st = ie_pos (find_entry_gen fx es o) /\ st < size - 16 /\ st <= en < size - 16 \/
+                           st = ie_pos (find_entry_gen fx es o) /\ st < size - 16 /\ en < st /\ 0 < max).
+Proof.
+  unfold compute_range_gen, segment_footer_len.
+  destruct (size <=? 16); [intros [= <- <-]; now left|].
+  destruct (size - 16 <=? ie_pos (find_entry_gen fx es o)) eqn:E; [intros [= <- <-]; now left|].
+  intros [= <- <-]. right. destruct (0 <? max) eqn:E2; lia.
+Qed.
+
+(* sliceCachedSegment on the object = what the S3 range read returns = what the full
+   download + slice returns, for ANY index entries, offset and limit, as long as the
+   registered size is the object's size *)
+Lemma paths_agree_seg fx s o max : s_size s = zlen (s_data s) ->
+  read_uncached_gen fx s o max = read_cached_gen fx s o max.
+Proof.
+  intros Hsz. unfold read_uncached_gen, read_range_gen, read_full_gen, read_cached_gen, range_for_gen.
+  cbn [s3_download].
+  destruct ((s_size s <=? 0) || is_nil (s_entries s)) eqn:E0; [reflexivity|].
+  apply orb_false_iff in E0 as [E0 E0'].
+  unfold slice_cached_gen. rewrite E0'.
+  destruct (compute_range_gen fx (s_size s) (s_entries s) o max) as [st en] eqn:Ecr.
+  destruct ((st <? 0) || (en <? st)) eqn:E1; [reflexivity|].
+  apply compute_range_shape in Ecr.
+  unfold s3_download.
+  assert (Hst : 0 <= st <= en /\ en < zlen (s_data s) - 16) by lia.
+  replace (Z.max 0 st) with st by lia.
+  destruct (zlen (s_data s) <=? en) eqn:E2; [lia|].
+  destruct ((en <? st) || (zlen (s_data s) <=? st)) eqn:E3; [lia|].
+  destruct (zlen (s_data s) <? st) eqn:E4; [lia|]. reflexivity.
+Qed.
+
+(* ------------------------------------------------------------------ *)
+(* F. reading a segment built by BuildSegment                           *)
+(* ------------------------------------------------------------------ *)
+Lemma be_enc_len n v : zlen (be_enc n v) = Z.of_nat n.
+Proof.
+  revert v; induction n as [|n IH]; intros v; cbn [be_enc]; [reflexivity|].
+  rewrite zlen_app, IH, zlen_cons, zlen_nil. lia.
+Qed.
+
+Lemma header_len b c t : zlen (build_header b c t) = 32.
+Proof.
+  unfold build_header, u16, u32, u64. rewrite !zlen_app, !be_enc_len. reflexivity.
+Qed.
+
+Lemma footer_len c l : zlen (build_footer c l) = 16.
+Proof. unfold build_footer, u32, u64. rewrite !zlen_app, !be_enc_len. reflexivity. Qed.
+
+Lemma ztake_min {A} (m : Z) (X : list A) : ztake (Z.min (zlen X) m) X = ztake m X.
+Proof.
+  destruct (Z.le_gt_cases (zlen X) m) as [H|H].
+  - rewrite Z.min_l by lia. rewrite !ztake_all by lia. reflexivity.
+  - rewrite Z.min_r by lia. reflexivity.
+Qed.
+
+Lemma slice_mid' (h body f : bytes) (st en a n : Z) :
+  st = zlen h + a -> en = st + n -> 0 <= a -> 0 <= n -> a + n <= zlen body ->
+  slice (h ++ body ++ f) st en = ztake n (zdrop a body).
+Proof. intros -> -> Ha Hn Hb. apply slice_mid; assumption. Qed.
+
+Lemma zlen_body_split bs k : zlen (body_of bs) = zlen (body_of (firstn k bs)) + zlen (body_of (skipn k bs)).
+Proof. rewrite <- (firstn_skipn k bs) at 1. rewrite body_of_app, zlen_app. reflexivity. Qed.
+
+Lemma skipn_nth_cons (bs : list batch) k : (k < length bs)%nat -> exists r, skipn k bs = nth k bs dflt :: r.
+Proof.
+  revert k; induction bs as [|b r IH]; intros k Hk; cbn in Hk; [lia|].
+  destruct k; cbn; [eauto|]. apply IH. lia.
+Qed.
+
+(* the bytes a read of the segment returns: from the batch the chosen index entry
+   points at, capped *)
+Definition capped (max : Z) (X : bytes) : bytes := if 0 <? max then ztake max X else X.
+
+Lemma seg_read_cached fx iv c r lo bs o' max :
+  chain lo bs -> bs <> [] -> first_base bs <= o' ->
+  let s := build_segment iv c r bs in
+  exists k, (k < length bs)%nat /\
+    ie_pos (find_entry_gen fx (s_entries s) o') = 32 + zlen (body_of (firstn k bs)) /\
+    b_base (nth k bs dflt) <= o' /\
+    read_cached_gen fx s o' max = ROk (capped max (body_of (skipn k bs))).
+Proof.
+  intros Hc Hne Hfb s.
+  assert (Ebs' : exists b0 rest, bs = b0 :: rest) by (destruct bs as [|b0 rest]; [congruence|eauto]).
+  destruct Ebs' as (b0 & rest & Ebs).
+  assert (Hent : exists tl, s_entries s = mkEntry (b_base b0) 32 :: tl).
+  { subst s. unfold build_segment. cbn [s_entries]. rewrite Ebs. apply build_index_first. }
+  destruct Hent as (tl & Hent).
+  set (e := find_entry_gen fx (s_entries s) o').
+  assert (Hin : In e (s_entries s)) by (apply find_entry_in; rewrite Hent; congruence).
+  assert (Hle : ie_off e <= o').
+  { subst e. rewrite Hent. apply find_entry_le. cbn [ie_off]. subst bs. exact Hfb. }
+  assert (Hnil : is_nil (s_entries s) = false) by (rewrite Hent; reflexivity).
+  assert (Hin' : In e (build_index (norm_interval iv) 0 true segment_header_len bs)) by exact Hin.
+  apply build_index_in in Hin' as (k & Hk & Hoff & Hpos).
+  exists k. split; [exact Hk|]. split; [exact Hpos|]. split; [lia|].
+  unfold read_cached_gen, slice_cached_gen. rewrite Hnil.
+  set (P := zlen (body_of (firstn k bs))) in *.
+  set (X := body_of (skipn k bs)).
+  assert (HB : zlen (body_of bs) = P + zlen X) by apply zlen_body_split.
+  assert (HX : 61 <= zlen X).
+  { destruct (skipn_nth_cons bs k Hk) as (r' & Hr'). subst X.
+    eapply body_nonempty; [apply chain_skipn; exact Hc|rewrite Hr'; congruence]. }
+  assert (HP : 0 <= P) by apply zlen_nonneg.
+  assert (Hsize : s_size s = 32 + zlen (body_of bs) + 16).
+  { subst s. unfold build_segment. cbn [s_size]. rewrite !zlen_app, header_len, footer_len. lia. }
+  assert (Hdata : zlen (s_data s) = s_size s) by reflexivity.
+  assert (Hcr : compute_range_gen fx (s_size s) (s_entries s) o' max
+                = (32 + P, if 0 <? max then Z.min (s_size s - 16 - 1) (32 + P + max - 1) else s_size s - 16 - 1)).
+  { unfold compute_range_gen, segment_footer_len, segment_header_len in *. fold e. rewrite Hpos.
+    destruct (s_size s <=? 16) eqn:E1; [lia|].
+    destruct (s_size s - 16 <=? 32 + P) eqn:E2; [lia|]. reflexivity. }
+  rewrite Hcr.
+  set (en := if 0 <? max then Z.min (s_size s - 16 - 1) (32 + P + max - 1) else s_size s - 16 - 1).
+  assert (Hen : 32 + P <= en < s_size s - 16) by (subst en; destruct (0 <? max) eqn:E; lia).
+  destruct ((32 + P <? 0) || (en <? 32 + P)) eqn:E1; [lia|].
+  rewrite Hdata.
+  destruct (s_size s <=? en) eqn:E2; [lia|].
+  destruct (s_size s <? 32 + P) eqn:E3; [lia|].
+  f_equal. subst s. unfold build_segment. cbn [s_data].
+  rewrite (slice_mid' _ _ _ (32 + P) (en + 1) P (en + 1 - (32 + P))); try lia.
+  2: rewrite header_len; reflexivity.
+  subst P. rewrite zdrop_body_prefix. fold X. unfold capped.
+  subst en. destruct (0 <? max) eqn:E.
+  - rewrite <- (ztake_min max X). f_equal. lia.
+  - apply ztake_all. lia.
+Qed.
+
+(* ------------------------------------------------------------------ *)
+(* G. reachable states                                                  *)
+(* ------------------------------------------------------------------ *)
+Definition seg_batches (segs : list segment) : list batch := concat (map s_batches segs).
+
+Definition seg_ok (iv : Z) (s : segment) : Prop :=
+  s_batches s <> [] /\ exists c r, s = build_segment iv c r (s_batches s).
+
+Record inv (start : Z) (l : plog) : Prop := mkInv {
+  inv_chain : chain start (live l);
+  inv_next : hi_of start (live l) <= l_next l;
+  inv_segs : Forall (seg_ok (l_interval l)) (l_segs l);
+  inv_fl : forall s, l_inflight l = Some s -> seg_ok (l_interval l) s
+}.
+
+Lemma live_eq l : live l = seg_batches (l_segs l) ++ flushing_batches l ++ l_buffer l.
+Proof. reflexivity. Qed.
+
+Lemma seg_batches_app a b : seg_batches (a ++ b) = seg_batches a ++ seg_batches b.
+Proof. unfold seg_batches. rewrite map_app, concat_app. reflexivity. Qed.
+
+Lemma seg_batches_cons s r : seg_batches (s :: r) = s_batches s ++ seg_batches r.
+Proof. reflexivity. Qed.
+
+Lemma patch_len base p : 8 <= zlen p -> zlen (patch_base base p) = zlen p.
+Proof.
+  intros H. unfold patch_base, u64. rewrite zlen_app, be_enc_len, zlen_zdrop; lia.
+Qed.
+
+Lemma inv_init iv rq start : inv start (init_log iv rq start).
+Proof.
+  constructor.
+  - exact I.
+  - cbn. lia.
+  - constructor.
+  - intros s H. discriminate.
+Qed.
+
+Lemma inv_step start l o : valid_op o -> inv start l -> inv start (step l o).
+Proof.
+  intros Hv [Hc Hn Hs Hf]. destruct o as [p|c r| |]; cbn [step].
+  - (* append *)
+    unfold batch_header_min in *. destruct (zlen p <? 61) eqn:E; [constructor; assumption|].
+    cbn [valid_op] in Hv. unfold batch_header_min in Hv.
+    assert (Hlod : 0 <= payload_lod p) by (apply Hv; lia).
+    set (b := mkBatch (l_next l) (payload_lod p) (payload_count p) (patch_base (l_next l) p)).
+    assert (Hl : live (mkLog (l_interval l) (l_requeue l) (l_next l + payload_lod p + 1) (l_segs l)
+                             (l_inflight l) (l_buffer l ++ [b])) = live l ++ [b]).
+    { unfold live, flushing_batches. cbn [l_segs l_inflight l_buffer]. now rewrite !app_assoc. }
+    constructor; cbn [l_interval l_segs l_inflight l_next]; try assumption.
+    + rewrite Hl. apply chain_app. split; [exact Hc|]. cbn [chain]. subst b. cbn [b_base b_lod b_bytes].
+      rewrite patch_len by lia. repeat split; lia.
+    + rewrite Hl, hi_of_app. cbn [hi_of]. subst b. unfold b_last. cbn [b_base b_lod]. lia.
+  - (* prepareFlush *)
+    destruct (l_inflight l) as [s|] eqn:Ei; [constructor; try assumption; now rewrite Ei|].
+    destruct (l_buffer l) as [|x buf] eqn:Eb; [constructor; try assumption; now rewrite Ei|].
+    assert (Hl : live (mkLog (l_interval l) (l_requeue l) (l_next l) (l_segs l)
+                  (Some (build_segment (l_interval l) c r (x :: buf))) []) = live l).
+    { unfold live, flushing_batches. cbn [l_segs l_inflight l_buffer s_batches build_segment].
+      rewrite Ei, Eb. now rewrite app_nil_r. }
+    constructor; cbn [l_interval l_segs l_inflight l_next]; try (rewrite Hl); try assumption.
+    intros s [= <-]. split; [cbn; congruence|]. exists c, r. reflexivity.
+  - (* commit *)
+    destruct (l_inflight l) as [s|] eqn:Ei; [|constructor; try assumption; now rewrite Ei].
+    assert (Hl : live (mkLog (l_interval l) (l_requeue l) (l_next l) (l_segs l ++ [s]) None (l_buffer l)) = live l).
+    { unfold live, flushing_batches. cbn [l_segs l_inflight l_buffer]. rewrite Ei.
+      rewrite map_app, concat_app. cbn [map concat]. now rewrite app_nil_r, <- app_assoc. }
+    constructor; cbn [l_interval l_segs l_inflight l_next]; try (rewrite Hl); try assumption.
+    + apply Forall_app. split; [assumption|]. constructor; [|constructor]. apply Hf. reflexivity.
+    + intros; discriminate.
+  - (* failed upload *)
+    destruct (l_inflight l) as [s|] eqn:Ei; [|constructor; try assumption; now rewrite Ei].
+    destruct (l_requeue l) eqn:Erq.
+    + assert (Hl : live (mkLog (l_interval l) true (l_next l) (l_segs l) None (s_batches s ++ l_buffer l)) = live l).
+      { unfold live, flushing_batches. cbn [l_segs l_inflight l_buffer]. now rewrite Ei. }
+      constructor; cbn [l_interval l_segs l_inflight l_next]; try (rewrite Hl); try assumption.
+      intros; discriminate.
+    + assert (Hl : live (mkLog (l_interval l) false (l_next l) (l_segs l) None (l_buffer l))
+                   = seg_batches (l_segs l) ++ l_buffer l) by reflexivity.
+      assert (Hl0 : live l = seg_batches (l_segs l) ++ s_batches s ++ l_buffer l).
+      { unfold live, flushing_batches. now rewrite Ei. }
+      rewrite Hl0 in Hc, Hn. apply chain_app in Hc as [Hc1 Hc2]. apply chain_app in Hc2 as [Hc2 Hc3].
+      rewrite !hi_of_app in Hn.
+      pose proof (hi_of_ge _ _ Hc2) as Hge.
+      constructor; cbn [l_interval l_segs l_inflight l_next]; try (rewrite Hl); try assumption.
+      * apply chain_app. split; [assumption|]. eapply chain_weaken; [|exact Hc3]. exact Hge.
+      * rewrite hi_of_app. etransitivity; [|exact Hn]. apply hi_of_mono. exact Hge.
+      * intros; discriminate.
+Qed.
+
+Lemma step_interval l o : l_interval (step l o) = l_interval l.
+Proof.
+  destruct o; cbn [step].
+  - destruct (zlen payload <? batch_header_min); reflexivity.
+  - destruct (l_inflight l); [reflexivity|]. destruct (l_buffer l); reflexivity.
+  - destruct (l_inflight l); reflexivity.
+  - destruct (l_inflight l); reflexivity.
+Qed.
+
+Lemma inv_run start ops : forall l, Forall valid_op ops -> inv start l -> inv start (run l ops).
+Proof.
+  induction ops as [|o ops IH]; intros l Hv Hi; cbn [run fold_left]; [exact Hi|].
+  inversion Hv; subst. apply IH; [assumption|]. apply inv_step; assumption.
+Qed.
+
+(* ------------------------------------------------------------------ *)
+(* H. the shape of every successful read                                *)
+(* ------------------------------------------------------------------ *)
+Lemma seg_batches_lt lo iv o A : chain lo (seg_batches A) -> Forall (seg_ok iv) A ->
+  Forall (fun x => s_last x < o) A -> Forall (fun b => b_last b < o) (seg_batches A).
+Proof.
+  revert lo; induction A as [|x A IH]; intros lo Hc Hok Hlt; [constructor|].
+  rewrite seg_batches_cons in *. apply chain_app in Hc as [Hc1 Hc2].
+  inversion Hok as [|? ? [Hne (c & r & Hx)] Hok']; subst. inversion Hlt as [|? ? Hx1 Hlt']; subst.
+  apply Forall_app. split; [|eapply IH; eassumption].
+  pose proof (chain_last_lt _ _ Hc1) as Hl. rewrite (hi_of_last _ _ Hne) in Hl.
+  assert (Hsl : s_last x = last_last (s_batches x)) by (rewrite Hx at 1; reflexivity).
+  eapply Forall_impl; [|exact Hl]. cbn. intros; lia.
+Qed.
+
+Lemma lead_split o bs : exists rest, bs = lead o bs ++ rest /\ Forall (fun b => b_last b < o) (lead o bs)
+  /\ (forall b r, rest = b :: r -> o <= b_last b).
+Proof.
+  induction bs as [|b r IH]; cbn [lead].
+  - exists []. repeat split; [constructor|intros; discriminate].
+  - destruct (b_last b <? o) eqn:E.
+    + destruct IH as (rest & H1 & H2 & H3). exists rest. cbn [app]. rewrite <- H1.
+      repeat split; [constructor; [lia|assumption]|assumption].
+    + exists (b :: r). repeat split; [constructor|]. intros b' r' [= <- <-]. lia.
+Qed.
+
+Lemma lead_app_all o a b : Forall (fun x => b_last x < o) a -> lead o (a ++ b) = a ++ lead o b.
+Proof.
+  induction a as [|x a IH]; intros H; [reflexivity|]. inversion H; subst. cbn [app lead].
+  destruct (b_last x <? o) eqn:E; [|lia]. now rewrite IH.
+Qed.
+
+Lemma chain_first_zero lo bs k : chain lo bs -> (k < length bs)%nat ->
+  b_base (nth k bs dflt) <= first_base bs -> k = 0%nat.
+Proof.
+  intros Hc Hk Hb. destruct k; [reflexivity|]. exfalso.
+  pose proof (chain_firstn_lt _ _ _ Hc Hk) as Hf.
+  destruct bs as [|b0 r]; [cbn in Hk; lia|]. cbn [firstn] in Hf. inversion Hf; subst.
+  cbn [chain] in Hc. cbn [first_base] in Hb. unfold b_last in *. lia.
+Qed.
+
+Lemma chain_first_le_last lo bs : chain lo bs -> bs <> [] ->
+  Forall (fun b => first_base bs <= b_last b) bs.
+Proof.
+  destruct bs as [|b0 r]; [congruence|]. intros Hc _. cbn [first_base].
+  apply (chain_last_ge (b_base b0)). cbn [chain] in *. repeat split; try tauto; lia.
+Qed.
+
+Lemma capped_spec max X : 61 <= zlen X ->
+  exists n, 1 <= n <= zlen X /\ capped max X = ztake n X /\ (0 < max -> n = Z.min max (zlen X)).
+Proof.
+  intros H. unfold capped. destruct (0 <? max) eqn:E.
+  - exists (Z.min (zlen X) max). repeat split; try lia. now rewrite ztake_min.
+  - exists (zlen X). repeat split; try lia. symmetry. apply ztake_all. lia.
+Qed.
+
+Lemma body_firstn_prefix n rest more :
+  body_of (firstn n rest) = ztake (zlen (body_of (firstn n rest))) (body_of (rest ++ more)).
+Proof.
+  rewrite <- (firstn_skipn n rest) at 3. rewrite <- app_assoc, body_of_app.
+  rewrite ztake_app_l by lia. symmetry. apply ztake_all. lia.
+Qed.
+
+(* What a successful Read returns, for every reachable log, offset, limit and cache
+   state: the live batches split as pre ++ mid ++ rest, everything in pre and mid ends
+   below o, rest starts with a batch ending at or after o, the result is the first n
+   bytes of mid ++ rest, mid's bytes are exactly [entry_distance], and n is only cut
+   short by maxBytes. *)
+Lemma read_shape start l cached o max d : inv start l -> read l cached o max = ROk d ->
+  exists pre mid rest n, live l = pre ++ mid ++ rest /\
+    Forall (fun b => b_last b < o) pre /\ Forall (fun b => b_last b < o) mid /\
+    (exists b r, rest = b :: r /\ o <= b_last b) /\
+    d = ztake n (body_of (mid ++ rest)) /\ 1 <= n <= zlen (body_of (mid ++ rest)) /\
+    entry_distance l o = zlen (body_of mid) /\
+    (0 < max -> Z.min max (zlen (body_of mid) + 1) <= n).
+Proof.
+  intros [Hc Hn Hs Hf] Hr. unfold read, read_gen in Hr. cbv beta zeta iota in Hr. unfold entry_distance.
+  rewrite live_eq in *.
+  destruct (find_segment (l_segs l) o) as [[s o']|] eqn:Efs.
+  - (* served by a flushed segment *)
+    apply find_segment_some in Efs as (A & B & Esegs & HA & Ho').
+    rewrite Esegs in Hs. apply Forall_app in Hs as [HsA HsB]. inversion HsB as [|? ? [Hne (c & r & Hseg)] HsB']; subst.
+    set (bs := s_batches s) in *.
+    rewrite Esegs, seg_batches_app, seg_batches_cons in Hc |- *. fold bs in Hc |- *.
+    rewrite <- !app_assoc in Hc |- *.
+    set (T := seg_batches B ++ flushing_batches l ++ l_buffer l) in *.
+    apply chain_app in Hc as [HcA Hc2]. apply chain_app in Hc2 as [Hcs Hc3].
+    assert (Hsz : s_size s = zlen (s_data s)) by (rewrite Hseg; reflexivity).
+    assert (Hrc : read_cached_gen true s o' max = ROk d).
+    { destruct cached; [exact Hr|]. rewrite <- paths_agree_seg; assumption. }
+    assert (Hbase : s_base s = first_base bs) by (rewrite Hseg at 1; reflexivity).
+    assert (Hlast : s_last s = last_last bs) by (rewrite Hseg at 1; reflexivity).
+    assert (Hfb : first_base bs <= o') by lia.
+    rewrite Hseg in Hrc.
+    destruct (seg_read_cached true (l_interval l) c r _ bs o' max Hcs Hne Hfb) as (k & Hk & Hoff & Hbk & Hrd).
+    rewrite Hrd in Hrc. injection Hrc as <-.
+    pose proof (chain_firstn_lt _ _ _ Hcs Hk) as Hfk.
+    destruct (lead_split o' (skipn k bs)) as (rest' & Hsplit & Hmid & Hrest').
+    set (mid := lead o' (skipn k bs)) in *.
+    assert (Hlead : lead o' bs = firstn k bs ++ mid).
+    { rewrite <- (firstn_skipn k bs) at 1. apply lead_app_all. eapply Forall_impl; [|exact Hfk]. cbn. intros; lia. }
+    (* the segment's last batch ends at or after o', so rest' is not empty *)
+    assert (Hrne : exists b r', rest' = b :: r' /\ o' <= b_last b).
+    { destruct rest' as [|b r']; [|exists b, r'; split; [reflexivity|eapply Hrest'; reflexivity]].
+      exfalso. rewrite app_nil_r in Hsplit.
+      destruct (skipn_nth_cons bs k Hk) as (r'' & Hr'').
+      assert (Hall : Forall (fun b => b_last b < o') bs).
+      { rewrite <- (firstn_skipn k bs). apply Forall_app. split.
+        - eapply Forall_impl; [|exact Hfk]. cbn. intros; lia.
+        - rewrite Hsplit. exact Hmid. }
+      pose proof (chain_first_le_last _ _ Hcs Hne) as Hfl.
+      destruct (exists_last Hne) as (a & bl & Ebs).
+      assert (Hbl : In bl bs) by (rewrite Ebs; apply in_or_app; right; now left).
+      rewrite Forall_forall in Hall, Hfl. apply Hall in Hbl as Hbl1. apply Hfl in Hbl as Hbl2.
+      rewrite Ebs, last_last_snoc in Hlast. lia. }
+    destruct Hrne as (b & r' & -> & Hb).
+    (* in the snapped case nothing of this segment ends below o' *)
+    assert (Hmid_o : Forall (fun x => b_last x < o) (firstn k bs ++ mid)).
+    { destruct Ho' as [[-> _]|[-> Hlt]].
+      - apply Forall_app. split; [|exact Hmid]. eapply Forall_impl; [|exact Hfk]. cbn. intros; lia.
+      - assert (k = 0%nat) by (eapply chain_first_zero; [exact Hcs|exact Hk|lia]). subst k.
+        cbn [firstn app]. cbn [skipn] in *.
+        destruct bs as [|b0 rb] eqn:Ebs'; [congruence|]. subst mid. cbn [lead].
+        cbn [chain] in Hcs. cbn [first_base] in Hbase.
+        destruct (b_last b0 <? s_base s) eqn:E; [unfold b_last in E; lia|constructor]. }
+    apply Forall_app in Hmid_o as [Hpre_o Hmid_o].
+    destruct (capped_spec max (body_of (skipn k bs))) as (n & Hn1 & Hcap & Hnmax).
+    { destruct (skipn_nth_cons bs k Hk) as (r'' & Hr'').
+      eapply body_nonempty; [apply chain_skipn; exact Hcs|rewrite Hr''; congruence]. }
+    exists (seg_batches A ++ firstn k bs), mid, ((b :: r') ++ T), n.
+    assert (Hbody : body_of (mid ++ (b :: r') ++ T) = body_of (skipn k bs) ++ body_of T).
+    { rewrite app_assoc, <- Hsplit. apply body_of_app. }
+    split.
+    { rewrite <- app_assoc. f_equal. rewrite (app_assoc mid), <- Hsplit, app_assoc, firstn_skipn. reflexivity. }
+    split.
+    { apply Forall_app. split; [|exact Hpre_o]. eapply seg_batches_lt; eassumption. }
+    split; [exact Hmid_o|].
+    split.
+    { exists b, (r' ++ T). split; [reflexivity|].
+      destruct Ho' as [[-> _]|[-> Hlt]]; lia. }
+    split; [rewrite Hbody, ztake_app_l by lia; exact Hcap|].
+    split; [rewrite Hbody, zlen_app; pose proof (zlen_nonneg (body_of T)); lia|].
+    split.
+    { unfold find_entry.
+      replace (s_entries s) with (s_entries (build_segment (l_interval l) c r bs)) by (rewrite <- Hseg; reflexivity).
+      rewrite Hoff. rewrite Hlead, body_of_app, zlen_app.
+      unfold segment_header_len. lia. }
+    intros Hmax. specialize (Hnmax Hmax). subst n.
+    assert (zlen (body_of (skipn k bs)) = zlen (body_of mid) + zlen (body_of (b :: r'))).
+    { rewrite Hsplit at 1. now rewrite body_of_app, zlen_app. }
+    assert (61 <= zlen (body_of (b :: r'))).
+    { pose proof (chain_skipn _ _ k Hcs) as Hck. rewrite Hsplit in Hck. apply chain_app in Hck as [_ Hck].
+      eapply body_nonempty; [exact Hck|congruence]. }
+    lia.
+  - (* served from memory: in-flight batches first, then the write buffer *)
+    apply find_segment_none in Efs.
+    apply chain_app in Hc as [HcA Hc2]. apply chain_app in Hc2 as [Hcf Hcb].
+    assert (HsegsLt : Forall (fun b => b_last b < o) (seg_batches (l_segs l))) by (eapply seg_batches_lt; eassumption).
+    destruct (rf_spec o max _ _ Hcf) as (pre1 & rest1 & n1 & Efl & Hp1 & Hfb & Hn1).
+    destruct (rf_spec o max _ _ Hcb) as (pre2 & rest2 & n2 & Ebf & Hp2 & Hbb & Hn2).
+    assert (Hnz : forall lo (b : batch) r n, chain lo (b :: r) -> (1 <= n)%nat -> 61 <= zlen (body_of (firstn n (b :: r)))).
+    { intros lo b r n Hcc Hn'. destruct n; [lia|]. cbn [firstn]. rewrite body_of_cons, zlen_app.
+      cbn [chain] in Hcc. pose proof (zlen_nonneg (body_of (firstn n r))). lia. }
+    destruct (is_nil (records_from (flushing_batches l) o max)) eqn:Enil.
+    + (* nothing in flight ends at or after o *)
+      destruct (is_nil (records_from (l_buffer l) o max)) eqn:Enil2; [discriminate|].
+      assert (Hd : d = records_from (l_buffer l) o max) by congruence. subst d. clear Hr.
+      assert (rest1 = []).
+      { destruct rest1 as [|b r]; [reflexivity|]. exfalso. apply is_nil_true in Enil.
+        destruct (Hn1 b r eq_refl) as [_ Hge]. rewrite Efl in Hcf. apply chain_app in Hcf as [_ Hcf].
+        pose proof (Hnz _ b r n1 Hcf Hge). rewrite Hfb in Enil. rewrite Enil in H. cbn in H. lia. }
+      subst rest1. rewrite app_nil_r in Efl.
+      destruct rest2 as [|b r].
+      { exfalso. apply is_nil_false in Enil2. apply Enil2. rewrite Hbb. now destruct n2. }
+      destruct (Hn2 b r eq_refl) as [Hob Hge].
+      rewrite Ebf in Hcb. apply chain_app in Hcb as [_ Hcb].
+      exists (seg_batches (l_segs l) ++ flushing_batches l ++ pre2), [], (b :: r), (zlen (body_of (firstn n2 (b :: r)))).
+      cbn [app]. split; [rewrite Ebf; now rewrite <- !app_assoc|].
+      split; [repeat (apply Forall_app; split); try assumption; now rewrite Efl|].
+      split; [constructor|]. split; [eauto|].
+      split; [rewrite Hbb; rewrite <- (app_nil_r (b :: r)) at 3; apply body_firstn_prefix|].
+      pose proof (Hnz _ b r n2 Hcb Hge).
+      split.
+      { split; [lia|]. rewrite <- (firstn_skipn n2 (b :: r)) at 2. rewrite body_of_app, zlen_app.
+        pose proof (zlen_nonneg (body_of (skipn n2 (b :: r)))). lia. }
+      split; [reflexivity|]. intros. change (zlen (body_of [])) with 0. lia.
+    + (* the in-flight batches serve it *)
+      cbv beta iota in Hr. rewrite Enil in Hr.
+      assert (Hd : d = records_from (flushing_batches l) o max) by congruence. subst d. clear Hr.
+      destruct rest1 as [|b r].
+      { exfalso. apply is_nil_false in Enil. apply Enil. rewrite Hfb. now destruct n1. }
+      destruct (Hn1 b r eq_refl) as [Hob Hge].
+      pose proof Hcf as Hcf'. rewrite Efl in Hcf'. apply chain_app in Hcf' as [_ Hcf'].
+      exists (seg_batches (l_segs l) ++ pre1), [], ((b :: r) ++ l_buffer l), (zlen (body_of (firstn n1 (b :: r)))).
+      cbn [app]. split; [rewrite Efl; now rewrite <- !app_assoc|].
+      split; [apply Forall_app; split; assumption|].
+      split; [constructor|]. split; [eauto|].
+      split; [rewrite Hfb; apply (body_firstn_prefix n1 (b :: r) (l_buffer l))|].
+      pose proof (Hnz _ b r n1 Hcf' Hge).
+      split.
+      { split; [lia|]. change (b :: r ++ l_buffer l) with ((b :: r) ++ l_buffer l).
+        rewrite <- (firstn_skipn n1 (b :: r)) at 2. rewrite <- app_assoc, body_of_app, zlen_app.
+        pose proof (zlen_nonneg (body_of (skipn n1 (b :: r) ++ l_buffer l))). lia. }
+      split; [reflexivity|]. intros. change (zlen (body_of [])) with 0. lia.
+Qed.
+
+(* ------------------------------------------------------------------ *)
+(* I. the theorems                                                      *)
+(* ------------------------------------------------------------------ *)
+Lemma ztake_len_ge1 n (X : bytes) : 1 <= n <= zlen X -> ztake n X <> [].
+Proof.
+  intros H E. pose proof (zlen_ztake n X ltac:(lia)) as Hl. rewrite E in Hl. cbn in Hl. lia.
+Qed.
+
+(* C03: every successful read is a run of this partition's live batches *)
+Theorem read_sound iv rq start ops cached o max d :
+  Forall valid_op ops ->
+  let l := run (init_log iv rq start) ops in
+  read l cached o max = ROk d -> is_run (live l) o d.
+Proof.
+  intros Hv l Hr. assert (Hi : inv start l) by (apply inv_run; [exact Hv|apply inv_init]).
+  destruct (read_shape _ _ _ _ _ _ Hi Hr) as (pre & mid & rest & n & El & Hp & Hm & _ & Hd & Hn & _).
+  exists pre, (mid ++ rest), n. repeat split; try assumption. subst d. now apply ztake_len_ge1.
+Qed.
+
+(* the live batches are ordered, disjoint, and each is an appended payload with the
+   base offset patched in *)
+Definition appended_by (ops : list op) (b : batch) : Prop :=
+  exists p, In (OAppend p) ops /\ batch_header_min <= zlen p /\
+    b_bytes b = patch_base (b_base b) p /\ b_lod b = payload_lod p /\ b_count b = payload_count p.
+
+Lemma live_step_incl l o b : In b (live (step l o)) ->
+  In b (live l) \/ exists p, o = OAppend p /\ batch_header_min <= zlen p /\
+     b = mkBatch (l_next l) (payload_lod p) (payload_count p) (patch_base (l_next l) p).
+Proof.
+  destruct o as [p|c r| |]; cbn [step].
+  - destruct (zlen p <? batch_header_min) eqn:E; [tauto|].
+    unfold live, flushing_batches. cbn [l_segs l_inflight l_buffer]. rewrite !in_app_iff. cbn [In].
+    intros [H|[H|[H|[H|[]]]]]; try tauto. right. exists p. repeat split; [lia|congruence].
+  - destruct (l_inflight l) as [s|] eqn:Ei; [tauto|]. destruct (l_buffer l) as [|x buf] eqn:Eb; [tauto|].
+    unfold live, flushing_batches. cbn [l_segs l_inflight l_buffer s_batches build_segment]. rewrite Ei, Eb.
+    rewrite !in_app_iff. cbn [In]. tauto.
+  - destruct (l_inflight l) as [s|] eqn:Ei; [|tauto].
+    unfold live, flushing_batches. cbn [l_segs l_inflight l_buffer]. rewrite Ei.
+    rewrite map_app, concat_app, !in_app_iff. cbn [map concat In]. rewrite in_app_iff. cbn [In]. tauto.
+  - destruct (l_inflight l) as [s|] eqn:Ei; [|tauto].
+    unfold live, flushing_batches. cbn [l_segs l_inflight l_buffer]. rewrite Ei.
+    destruct (l_requeue l); rewrite !in_app_iff; cbn [In]; try rewrite in_app_iff; tauto.
+Qed.
+
+Lemma live_appended_gen ops : forall l ops0,
+  Forall (appended_by ops0) (live l) -> Forall (appended_by (ops0 ++ ops)) (live (run l ops)).
+Proof.
+  induction ops as [|o ops IH]; intros l ops0 H; cbn [run fold_left].
+  - now rewrite app_nil_r.
+  - replace (ops0 ++ o :: ops) with ((ops0 ++ [o]) ++ ops) by now rewrite <- app_assoc.
+    apply IH. rewrite Forall_forall in *. intros b Hb.
+    apply live_step_incl in Hb as [Hb|(p & -> & Hp & ->)].
+    + destruct (H b Hb) as (p & Hin & Hrest). exists p. split; [apply in_or_app; now left|exact Hrest].
+    + exists p. split; [apply in_or_app; right; now left|]. repeat split; assumption.
+Qed.
+
+Theorem live_appended iv rq start ops :
+  Forall (appended_by ops) (live (run (init_log iv rq start) ops)).
+Proof. apply (live_appended_gen ops (init_log iv rq start) []). constructor. Qed.
+
+(* C03: cached, range-read and full-download paths agree on every reachable log *)
+Theorem read_paths_agree iv rq start ops o max :
+  Forall valid_op ops ->
+  let l := run (init_log iv rq start) ops in
+  read l true o max = read l false o max.
+Proof.
+  intros Hv l. assert (Hi : inv start l) by (apply inv_run; [exact Hv|apply inv_init]).
+  unfold read, read_gen. destruct (find_segment (l_segs l) o) as [[s o']|] eqn:E; [|reflexivity].
+  apply find_segment_some in E as (A & B & Esegs & _). destruct Hi as [_ _ Hs _].
+  rewrite Esegs in Hs. apply Forall_app in Hs as [_ Hs]. inversion Hs as [|? ? [_ (c & r & Hseg)] _]; subst.
+  symmetry. apply paths_agree_seg. rewrite Hseg. reflexivity.
+Qed.
+
+Lemma body_firstn_nonempty lo b r n : chain lo (b :: r) -> (1 <= n)%nat -> 61 <= zlen (body_of (firstn n (b :: r))).
+Proof.
+  intros Hcc Hn'. destruct n; [lia|]. cbn [firstn]. rewrite body_of_cons, zlen_app.
+  cbn [chain] in Hcc. pose proof (zlen_nonneg (body_of (firstn n r))). lia.
+Qed.
+
+Lemma rf_nonempty lo bs o max b : chain lo bs -> In b bs -> o <= b_last b -> records_from bs o max <> [].
+Proof.
+  intros Hc Hin Hb. destruct (rf_spec o max _ _ Hc) as (pre & rest & n & E & Hp & Hr & Hn).
+  destruct rest as [|x r].
+  - exfalso. rewrite app_nil_r in E. subst pre. rewrite Forall_forall in Hp. apply Hp in Hin. lia.
+  - destruct (Hn x r eq_refl) as [_ Hge]. rewrite E in Hc. apply chain_app in Hc as [_ Hc].
+    pose proof (body_firstn_nonempty _ _ _ _ Hc Hge) as Hl. rewrite Hr. intros E0. rewrite E0 in Hl. cbn in Hl. lia.
+Qed.
+
+(* a read below the end of the live log never fails (whatever maxBytes is) *)
+Lemma read_ok start l cached o max : inv start l ->
+  (exists b, In b (live l) /\ o <= b_last b) -> exists d, read l cached o max = ROk d.
+Proof.
+  intros Hi (b & Hin & Hb). pose proof Hi as [Hc Hn Hs Hf]. unfold read, read_gen. cbv beta zeta iota.
+  rewrite live_eq in *.
+  destruct (find_segment (l_segs l) o) as [[s o']|] eqn:Efs.
+  - apply find_segment_some in Efs as (A & B & Esegs & HA & Ho').
+    rewrite Esegs in Hs. apply Forall_app in Hs as [HsA HsB]. inversion HsB as [|? ? [Hne (c & r & Hseg)] HsB']; subst.
+    rewrite Esegs, seg_batches_app, seg_batches_cons in Hc. rewrite <- !app_assoc in Hc.
+    apply chain_app in Hc as [HcA Hc2]. apply chain_app in Hc2 as [Hcs Hc3].
+    assert (Hsz : s_size s = zlen (s_data s)) by (rewrite Hseg; reflexivity).
+    assert (Hfb : first_base (s_batches s) <= o').
+    { assert (s_base s = first_base (s_batches s)) by (rewrite Hseg at 1; reflexivity). lia. }
+    destruct (seg_read_cached true (l_interval l) c r _ _ o' max Hcs Hne Hfb) as (k & _ & _ & _ & Hrd).
+    rewrite <- Hseg in Hrd.
+    destruct cached; [|rewrite paths_agree_seg by exact Hsz]; eauto.
+  - apply find_segment_none in Efs.
+    apply chain_app in Hc as [HcA Hc2]. apply chain_app in Hc2 as [Hcf Hcb].
+    assert (HsegsLt : Forall (fun b => b_last b < o) (seg_batches (l_segs l))) by (eapply seg_batches_lt; eassumption).
+    destruct (is_nil (records_from (flushing_batches l) o max)) eqn:Enil.
+    + cbv beta iota. apply is_nil_true in Enil.
+      rewrite !in_app_iff in Hin. destruct Hin as [Hin|[Hin|Hin]].
+      * rewrite Forall_forall in HsegsLt. apply HsegsLt in Hin. lia.
+      * exfalso. apply (rf_nonempty _ _ o max b Hcf Hin Hb). exact Enil.
+      * pose proof (rf_nonempty _ _ o max b Hcb Hin Hb) as Hne. apply is_nil_false in Hne. rewrite Hne. eauto.
+    + cbv beta iota. rewrite Enil. eauto.
+Qed.
+
+(* C04, on the complement of the open finding: whenever maxBytes exceeds the distance
+   between the index entry Read starts from and the batch holding o (0 when there is
+   an entry at that batch, and for every read served from memory), the read succeeds
+   and reaches past the start of that batch *)
+Theorem read_progress_partial iv rq start ops cached o max :
+  Forall valid_op ops ->
+  let l := run (init_log iv rq start) ops in
+  0 < max -> (exists b, In b (live l) /\ o <= b_last b) ->
+  entry_distance l o < max ->
+  exists d, read l cached o max = ROk d /\ progress_run (live l) o d.
+Proof.
+  intros Hv l Hmax Hex Hdist. assert (Hi : inv start l) by (apply inv_run; [exact Hv|apply inv_init]).
+  destruct (read_ok start l cached o max Hi Hex) as (d & Hr). exists d. split; [exact Hr|].
+  destruct (read_shape _ _ _ _ _ _ Hi Hr) as (pre & mid & rest & n & El & Hp & Hm & Hrest & Hd & Hn & Hed & Hnm).
+  exists pre, mid, rest, n. repeat split; try assumption.
+  - apply Forall_app; split; assumption.
+  - subst d. rewrite zlen_ztake by lia. specialize (Hnm Hmax). lia.
+Qed.
+
+(* progress_run implies its decidable form *)
+Lemma count_lt_split o pre b r : Forall (fun x => b_last x < o) pre -> o <= b_last b ->
+  count_lt o (pre ++ b :: r) = length pre.
+Proof.
+  induction pre as [|x pre IH]; intros H Hb; cbn [app count_lt length].
+  - destruct (b_last b <? o) eqn:E; [lia|reflexivity].
+  - inversion H; subst. destruct (b_last x <? o) eqn:E; [|lia]. now rewrite IH.
+Qed.
+
+Lemma ztake_norm n (X d : bytes) : d = ztake n X -> d = ztake (zlen d) X.
+Proof.
+  intros ->. unfold ztake, zlen. rewrite firstn_length.
+  rewrite Nat2Z.id. destruct (Nat.le_ge_cases (Z.to_nat n) (length X)) as [H|H].
+  - now rewrite Nat.min_l.
+  - rewrite Nat.min_r by assumption. rewrite !firstn_all2; [reflexivity|lia|lia].
+Qed.
+
+Lemma progress_run_b bs o d : progress_run bs o d -> progress_b bs o d = true.
+Proof.
+  intros (pre & mid & rest & n & -> & Hlt & (b & r & -> & Hb) & Hd & Hlen).
+  unfold progress_b. rewrite app_assoc. rewrite (count_lt_split o (pre ++ mid) b r Hlt Hb).
+  apply existsb_exists. exists (length pre). split.
+  - apply in_seq. rewrite app_length. lia.
+  - rewrite <- app_assoc. rewrite skipn_app, skipn_all, Nat.sub_diag. cbn [skipn app].
+    rewrite app_length. replace (length pre + length mid - length pre)%nat with (length mid) by lia.
+    rewrite firstn_app, firstn_all, Nat.sub_diag. cbn [firstn]. rewrite app_nil_r.
+    apply andb_true_iff. split; [|lia].
+    apply bytes_eqb_eq. eapply ztake_norm. exact Hd.
 Qed.
